@@ -48,7 +48,7 @@ def run(ctx):
         seen = rep["extra"]["seen"]
         need = ["entry:rt", "entry:rt_as_emitter", "entry:core", "entry:macro", "entry:macro_evt", "entry:direct",
                 "entry:macro_lvl", "entry:evt_macro", "entry:span_evt", "entry:metric_evt", "entry:span_guard",
-                "entry:span_macro",
+                "entry:span_macro", "entry:rt_with", "f:fnleaf", "e:fnleaf", "f:always",
                 "f:and", "f:or", "f:none", "f:opt", "f:ref", "f:box", "f:arc", "f:erased",
                 "e:and", "e:wrap", "e:none", "e:opt", "e:ref", "e:box", "e:arc", "e:erased",
                 "f:assert", "e:assert", "e:wrapfn", "e:rt"]
@@ -72,7 +72,8 @@ def run(ctx):
         "module and template are fixed; they do not take part in the pipeline decision",
         "the ambient context is a fixed Ctxt whose current properties are a slice (the thread-local context is C03's subject); "
         "the clock is scripted",
-        "blocking_flush is not modelled",
+        "blocking_flush: all model destinations flush at once, so only `a tree has flushed iff all of its destinations have` "
+        "(= true) is decided; timeouts are not modelled",
         "the extent is an input class (absent, point, forward / empty / inverted range) crossed with every entry point; a span "
         "guard's extent is the range between two scripted clock readings (forward, equal, backwards, no clock); its filter is "
         "consulted at span start on the span without extent (documented), so span-guard configurations only use filters that "
